@@ -95,6 +95,9 @@ Record ctx_table := {
   ct_md_regs_val : aexp;
   (* MinidumpContext::register_size arm for this variant, over [AVar v_size] = `get(ctx)` = `std::mem::size_of::<T::Register>()` *)
   ct_md_size : aexp;
+  (* MinidumpContext::format_register arm: None = `ctx.format_register(reg)`; Some (prefix, zero, digits) =
+     `format!("<prefix>{:[0]<digits>x}", ctx.get_register_always(reg))` *)
+  ct_md_fmt : option (name * bool * Z);
   ct_fields : list (name * Z * Z * Z);               (* the struct's integer fields: (name, element width, array length or -1, byte offset in the serialised struct) *)
   ct_gpr : list name                           (* MinidumpContext::general_purpose_registers arm (REGISTERS of the named type) *)
 }.
